@@ -131,7 +131,7 @@ func c10Run(c *h.Ctx) {
 	m := &c10Mon{c: c}
 	po := PlayOpts{
 		Hands:    2 + c.R.Intn(3),
-		Churn:    Churn{BetweenP: 0.3, Rebuy: true, BuyIn: true, SitOut: true, ResumePaused: true},
+		Churn:    Churn{BetweenP: 0.3, MidP: 0.15, Rebuy: true, BuyIn: true, SitOut: true, ResumePaused: true, MidLeaveOther: true, MidJoin: true},
 		NoJitter: false,
 		Gen:      h.GenOpts{MinSeats: 3, MaxSeats: 8, MinPlayers: 2},
 		Policies: []string{"random", "callstation", "aggro"},
